@@ -30,9 +30,9 @@ CHECKS = {
     "C07": dict(cat="other", ref="DESIGN.md §4 C07", technique="CrossHair symbolic execution of the callback-error and remote-body-error paths over scripted frame histories (symbolic failure position, channel alive/dropped)",
                 text="Bounded symbolic check of failure histories on both sides of a channel; schedules with concurrently active user threads are outside this check.",
                 note=E1_NOTE + "; receiver thread bodies run synchronously (no interleaving with user threads)"),
-    "C10": dict(cat="other", ref="DESIGN.md §4 C10", technique="CrossHair symbolic execution of setcallback hand-over and endmarker logic over frame histories with a symbolic setcallback position",
-                text="Bounded symbolic check over all positions of setcallback in enumerated histories (4 end causes); relies on setcallback and handlers being serialised by the receive lock, which is the real code's own locking; a local close racing setcallback is outside.",
-                note=E1_NOTE + "; the receive lock's mutual exclusion itself is assumed (threading.RLock)"),
+    "C10": dict(cat="other", ref="DESIGN.md §4 C10, §11", technique="E1: CrossHair symbolic execution of setcallback hand-over and endmarker logic over frame histories with a symbolic setcallback position; E2: bounded model checking (z3) of setcallback racing the receiver thread's handlers and its end-of-connection epilogue, counterexamples replayed on the real classes",
+                text="Bounded symbolic check over all positions of setcallback in enumerated histories, plus bounded model checking over all schedules (single shared accesses) of a user thread's setcallback against the receiver thread delivering items and ending the channel by close / last-message / close-error / connection loss.",
+                note=E1_NOTE + "; E2 part trusts the translator (validated per run), the queue/map/lock/event models and z3"),
     "C09": dict(cat="model_checking", ref="DESIGN.md §2 E2, §4 C09", engine="E2-py2ts-bmc",
                 technique="bounded model checking in z3 of control-flow automata compiled from the real WorkerPool/Reply methods, schedule = symbolic thread choice per step; counterexamples replayed on the real classes",
                 text="Bounded model checking over all schedules of small scenarios (spawn vs shutdown vs primary thread, results, time-outs, late spawn) for pools with/without primary thread and both thread backends; unwinding assertion and witness per scenario.",
